@@ -220,12 +220,15 @@ def before (a b : String) (l : List String) : Bool :=
 
 /-- **persist_before_apply_send** (T): in `processReady` the durable `Save` comes
     before `transport.Send` and before either apply path; the synchronous path
-    restores, applies, marks applied, then advances and completes futures; the
+    FIRST waits for the async apply worker to drain (it is also the fallback when the
+    apply pipeline refuses a Ready with ErrSlotBusy), then restores, applies, marks applied,
+    then advances and completes futures; the
     async worker applies, marks applied, then completes futures; compaction marks
     applied, snapshots the state machine, saves, then compacts; the restart rule is
     the one the model's `restartPos` mirrors. -/
 theorem c12_persist_before_apply_send :
     Gen.C12.persistReadyDurable = ["Save"] ∧
+    Gen.C12.processReadySynchronously.head? = some "waitApplyIdle" ∧
     before "persistReadyDurable" "Send" Gen.C12.processReady = true ∧
     before "persistReadyDurable" "applyReadyToMemory" Gen.C12.processReady = true ∧
     before "Send" "processReadySynchronously" Gen.C12.processReady = true ∧
@@ -243,7 +246,7 @@ theorem c12_persist_before_apply_send :
     Gen.C12.newSlotAppliedRule =
       ["appliedIndex := state.AppliedIndex",
        "if !raft.IsEmptySnap(snapshot) { appliedIndex = snapshot.Metadata.Index } else if durableStateMachine, ok := opts.StateMachine.(DurableAppliedStateMachine); ok { stateMachineApplied, err := durableStateMachine.DurableAppliedIndex(ctx) if err != nil { return nil, err } if stateMachineApplied > appliedIndex { appliedIndex = stateMachineApplied } }"] := by
-  refine ⟨rfl, by decide, by decide, by decide, by decide, by decide, by decide, by decide, by decide, by decide,
+  refine ⟨rfl, by decide, by decide, by decide, by decide, by decide, by decide, by decide, by decide, by decide, by decide,
     by decide, by decide, by decide, by decide, rfl, rfl⟩
 
 end WK.C12
